@@ -240,6 +240,18 @@ def r11_2(rep, M, rid, obj, br):
                 rep.ok(rid, "the axis scan compares the magnitudes of the entries")
         else:
             raise AnalysisError("2D branch: tolerance tests of the axis scan not recognised")
+    # the centre the layer is moved to is half the sum of the cell vectors
+    halves = [s2 for s2 in ast.walk(br) if isinstance(s2, ast.Assign) and isinstance(s2.value, ast.BinOp)
+              and any(isinstance(c, ast.Call) and (M.ext_name(FQ, c.func) or "") == "numpy.sum" and any("get_cell" in norm(a) for a in c.args) for c in ast.walk(s2.value))]
+    for s2 in halves:
+        v = s2.value
+        half = (isinstance(v.op, ast.Mult) and any(isinstance(x, ast.Constant) and x.value == 0.5 for x in (v.left, v.right))) or \
+            (isinstance(v.op, ast.Div) and isinstance(v.right, ast.Constant) and v.right.value == 2)
+        if half:
+            rep.ok(rid, f"2D branch: `{norm(s2)[:60]}` is the centre of the cell")
+        else:
+            rep.violation(rid, f"2D branch: `{norm(s2)[:60]}`", "the point the layer is centred on is not half the sum of the cell vectors: the sheet is shifted out of the "
+                          "middle of the cell (and, after wrapping, split across the cell face)", M.where(FQ, s2))
     raised = any(isinstance(t, ast.If) and idx and idx in norm(t.test) and "None" in norm(t.test) and any(isinstance(x, ast.Raise) for x in t.body)
                  for t in ast.walk(br))
     if all_true and one_false and loop and raised:
